@@ -533,6 +533,41 @@ class LayoutPlugin(Plugin):
 
     def _strip(self, I, s, left, right, chars=None):
         segs = list(s.segs)
+        if chars is not None and set(chars) <= set("\r\n\t "):
+            # line-end / blank characters only: they never occur inside tokens
+            def drop_left():
+                while segs:
+                    x = segs[0]
+                    if isinstance(x, Sp) and " " in chars:
+                        segs.pop(0)
+                    elif isinstance(x, Lit):
+                        t = x.text.lstrip(chars)
+                        if t:
+                            segs[0] = Lit(t)
+                            return
+                        segs.pop(0)
+                    else:
+                        return
+
+            def drop_right():
+                while segs:
+                    x = segs[-1]
+                    if isinstance(x, Sp) and " " in chars:
+                        segs.pop()
+                    elif isinstance(x, Lit):
+                        t = x.text.rstrip(chars)
+                        if t:
+                            segs[-1] = Lit(t)
+                            return
+                        segs.pop()
+                    else:
+                        return
+
+            if left:
+                drop_left()
+            if right:
+                drop_right()
+            return LStr(segs)
         if chars is not None:
             return self._strip_chars(I, s, chars)
         if left:
